@@ -24,6 +24,8 @@ type C14Case struct {
 	Faulty     string    `json:"faulty,omitempty"`
 	FaultKind  string    `json:"fault_kind,omitempty"`
 	FaultLine  int       `json:"fault_line,omitempty"`
+	// AsDefaults: the file is read with IniParser.ParseAsDefaults set
+	AsDefaults bool `json:"as_defaults,omitempty"`
 }
 
 var _ = Register("C14", func() interface{} { return new(C14Case) }, func(c interface{}) string { return c14Oracle(c.(*C14Case)) })
@@ -256,7 +258,7 @@ func joinLines(t *rapid.T, phys []string, crlf bool) string {
 
 func genC14(t *rapid.T) *C14Case {
 	d := genDecl(t, iniDecl)
-	c := &C14Case{D: d}
+	c := &C14Case{D: d, AsDefaults: rapid.IntRange(0, 3).Draw(t, "asDefaults") == 0}
 	c.Lines = genIniLines(t, d, 8, false)
 	// optionally end the file with a line whose length sits at a read-buffer
 	// boundary (the reader reassembles lines from 4096-byte chunks)
@@ -339,6 +341,10 @@ func genC14(t *rapid.T) *C14Case {
 			return c
 		}
 		faultLines = []string{iniKeyOf(m) + " = k:\"bad"}
+		// (for a map with a numeric key type: a key that is no number, beside a fine value)
+		if kk, vk := m.Kind.MapKV(); kk != KString && vk == KString && rapid.Bool().Draw(t, "badMapKey") {
+			faultLines = []string{iniKeyOf(m) + " = ht!tp:80"}
+		}
 	case "unknown key":
 		var names []string
 		for _, o := range scope {
@@ -437,7 +443,7 @@ func iniFields(b *Built) string {
 
 func c14Oracle(c *C14Case) string {
 	st := S("C14")
-	a := RunIniRead(c.D, c.Clean, false)
+	a := RunIniRead(c.D, c.Clean, c.AsDefaults)
 	if a.Panic != "" {
 		return fmt.Sprintf("INI reader panicked on\n%s\n%s", trunc(c.Clean), a.Panic)
 	}
@@ -445,7 +451,7 @@ func c14Oracle(c *C14Case) string {
 		st.Label("skip: setup error")
 		return ""
 	}
-	b := RunIniRead(c.D, c.Noisy, false)
+	b := RunIniRead(c.D, c.Noisy, c.AsDefaults)
 	if b.Panic != "" {
 		return fmt.Sprintf("INI reader panicked on\n%s\n%s", trunc(c.Noisy), b.Panic)
 	}
@@ -472,7 +478,7 @@ func c14Oracle(c *C14Case) string {
 		return ""
 	}
 	st.Eval() // the faulty variant is a second evaluation of this case
-	f := RunIniRead(c.D, c.Faulty, false)
+	f := RunIniRead(c.D, c.Faulty, c.AsDefaults)
 	if f.Panic != "" {
 		return fmt.Sprintf("INI reader panicked on fault %q:\n%s\n%s", c.FaultKind, trunc(c.Faulty), f.Panic)
 	}
